@@ -100,7 +100,7 @@ Proof.
 Qed.
 
 (* an instruction that falls through, transforming the stack *)
-Lemma step_simple : forall code rho pc ins stk stk' f,
+Lemma step_wfe : forall code rho pc ins stk stk' f,
   instr_at code pc ins -> length code + 3 <= f + pc ->
   (forall f0, exec (S f0) rho code pc stk = exec f0 rho code (S pc) stk') ->
   exists f', steps code rho (f, pc, stk) (f', S pc, stk').
@@ -180,19 +180,19 @@ Qed.
 Lemma truthy_of_bool : forall b, truthy (of_bool b) = b.
 Proof. intros []; reflexivity. Qed.
 
-Lemma simple_go : forall m,
-  (fix go (l : list bexp) : bool := match l with [] => true | x :: r => simple x && go r end) m = forallb simple m.
+Lemma wfe_go : forall m,
+  (fix go (l : list bexp) : bool := match l with [] => true | x :: r => wfe x && go r end) m = forallb wfe m.
 Proof. induction m as [|x r IH]; [reflexivity|]. cbn [forallb]. rewrite <- IH. reflexivity. Qed.
 
-Lemma simple_And : forall l, simple (And l) = true -> l <> [] /\ forallb simple l = true.
-Proof. intros [|x r] H; [discriminate H|]. split; [discriminate|]. rewrite <- simple_go. exact H. Qed.
-Lemma simple_Or : forall l, simple (Or l) = true -> l <> [] /\ forallb simple l = true.
-Proof. intros [|x r] H; [discriminate H|]. split; [discriminate|]. rewrite <- simple_go. exact H. Qed.
+Lemma wfe_And : forall l, wfe (And l) = true -> l <> [] /\ forallb wfe l = true.
+Proof. intros [|x r] H; [discriminate H|]. split; [discriminate|]. rewrite <- wfe_go. exact H. Qed.
+Lemma wfe_Or : forall l, wfe (Or l) = true -> l <> [] /\ forallb wfe l = true.
+Proof. intros [|x r] H; [discriminate H|]. split; [discriminate|]. rewrite <- wfe_go. exact H. Qed.
 
 (* ------------------------------------------------------------------ the statement proved by induction on the expression *)
 Definition sound_at (e : bexp) : Prop :=
   forall cnd code pre suf next c rho stk fuel,
-  simple e = true ->
+  wfe e = true ->
   code = pre ++ comp cnd e (pos_of (length pre)) next c ++ suf ->
   length code + 3 <= fuel + pos_of (length pre) ->
   (forall t, next = TAt t -> pos_of (length pre) + elen cnd e <= t) ->
@@ -201,7 +201,7 @@ Definition sound_at (e : bexp) : Prop :=
 
 (* value-context use of an induction hypothesis, with the code re-associated by the caller *)
 Lemma use_val : forall e code pre suf next c rho stk fuel,
-  sound_at e -> simple e = true ->
+  sound_at e -> wfe e = true ->
   code = pre ++ comp false e (pos_of (length pre)) next c ++ suf ->
   length code + 3 <= fuel + pos_of (length pre) ->
   post_val code rho (eval rho e) fuel (pos_of (length pre)) stk (pos_of (length pre) + elen false e).
@@ -239,7 +239,7 @@ Proof. intros. rewrite app_length. unfold pos_of. lia. Qed.
 
 Lemma and_cond_list : forall l, Forall sound_at l -> l <> [] ->
   forall code pre suf next next2 c rho stk fuel pend,
-  forallb simple l = true ->
+  forallb wfe l = true ->
   code = pre ++ comp_and true next next2 c l (pos_of (length pre)) ++ suf ->
   length code + 3 <= fuel + pos_of (length pre) ->
   pend = pos_of (length pre) + elen_list true l ->
@@ -279,7 +279,7 @@ Qed.
 
 Lemma or_cond_list : forall l, Forall sound_at l -> l <> [] ->
   forall code pre suf next next2 c rho stk fuel pend,
-  forallb simple l = true ->
+  forallb wfe l = true ->
   code = pre ++ comp_or true next next2 c l (pos_of (length pre)) ++ suf ->
   length code + 3 <= fuel + pos_of (length pre) ->
   pend = pos_of (length pre) + elen_list true l ->
@@ -323,7 +323,7 @@ Proof. trivial. Qed.
 
 Lemma and_val_list : forall l, Forall sound_at l -> l <> [] ->
   forall code pre suf next c rho stk fuel pend,
-  forallb simple l = true ->
+  forallb wfe l = true ->
   code = pre ++ comp_and false next (TAt pend) c l (pos_of (length pre)) ++ suf ->
   length code + 3 <= fuel + pos_of (length pre) ->
   pend = pos_of (length pre) + elen_list false l ->
@@ -380,7 +380,7 @@ Qed.
 
 Lemma or_val_list : forall l, Forall sound_at l -> l <> [] ->
   forall code pre suf next c rho stk fuel pend,
-  forallb simple l = true ->
+  forallb wfe l = true ->
   code = pre ++ comp_or false next (TAt pend) c l (pos_of (length pre)) ++ suf ->
   length code + 3 <= fuel + pos_of (length pre) ->
   pend = pos_of (length pre) + elen_list false l ->
@@ -443,7 +443,7 @@ Proof. intros [] [] []; reflexivity. Qed.
 
 (* one instruction appended to a value computation *)
 Lemma val_then_op : forall e op code pre suf next c rho stk fuel stk',
-  sound_at e -> simple e = true ->
+  sound_at e -> wfe e = true ->
   code = pre ++ comp false e (pos_of (length pre)) next c ++ [op] ++ suf ->
   length code + 3 <= fuel + pos_of (length pre) ->
   (forall f0 pc, instr_at code pc op -> exec (S f0) rho code pc (eval rho e :: stk) = exec f0 rho code (S pc) stk') ->
@@ -496,7 +496,7 @@ Proof.
   - (* Not *)
     destruct IH as [IHe IHis]. split; [|intros; discriminate].
     intros cnd code pre suf next c rho stk fuel Hif Hcode Hfuel Hfw. set (p := pos_of (length pre)) in *.
-    cbn [simple] in Hif. destruct cnd.
+    cbn [wfe] in Hif. destruct cnd.
     + (* condition: the jump sense is inverted *)
       cbn [comp elen eval] in *. rewrite truthy_of_bool.
       assert (H := IHe true code pre suf next (negb c) rho stk fuel Hif Hcode Hfuel Hfw).
@@ -506,7 +506,7 @@ Proof.
       { destruct e; try (right; intros; discriminate). left. eexists. eexists. reflexivity. }
       destruct Hcase as [[neg [e2 ->]]|Hn].
       * (* not (e2 is None): one inverted IS_OP *)
-        cbn [comp elen eval simple] in *. rewrite <- app_assoc in Hcode.
+        cbn [comp elen eval wfe] in *. rewrite <- app_assoc in Hcode.
         unfold post_val. apply (val_then_op e2 (IIs (negb neg)) code pre suf next c rho stk fuel _ (IHis neg e2 eq_refl) Hif Hcode Hfuel).
         intros f0 pc Hat. rewrite (exec_unfold _ rho code pc _ _ Hat). rewrite truthy_of_bool.
         do 3 f_equal. destruct neg, (val_eqb (eval rho e2) VNone); reflexivity.
@@ -521,7 +521,7 @@ Proof.
     split; [|intros; discriminate].
     assert (HF : Forall sound_at l) by (eapply Forall_impl; [|exact IH]; intros x [H _]; exact H).
     intros cnd code pre suf next c rho stk fuel Hif Hcode Hfuel Hfw. set (p := pos_of (length pre)) in *.
-    apply simple_And in Hif. destruct Hif as [Hne Hall].
+    apply wfe_And in Hif. destruct Hif as [Hne Hall].
     rewrite comp_And in Hcode. rewrite eval_And.
     destruct cnd; rewrite ?elen_And in *.
     + apply (and_cond_list l HF Hne code pre suf next _ c rho stk fuel (p + elen_list true l) Hall Hcode Hfuel eq_refl eq_refl).
@@ -531,18 +531,80 @@ Proof.
     split; [|intros; discriminate].
     assert (HF : Forall sound_at l) by (eapply Forall_impl; [|exact IH]; intros x [H _]; exact H).
     intros cnd code pre suf next c rho stk fuel Hif Hcode Hfuel Hfw. set (p := pos_of (length pre)) in *.
-    apply simple_Or in Hif. destruct Hif as [Hne Hall].
+    apply wfe_Or in Hif. destruct Hif as [Hne Hall].
     rewrite comp_Or in Hcode. rewrite eval_Or.
     destruct cnd; rewrite ?elen_Or in *.
     + apply (or_cond_list l HF Hne code pre suf next _ c rho stk fuel (p + elen_list true l) Hall Hcode Hfuel eq_refl eq_refl).
       intros t Ht. apply Hfw. assumption.
     + apply (or_val_list l HF Hne code pre suf next c rho stk fuel (p + elen_list false l) Hall Hcode Hfuel eq_refl).
-  - (* IfExp: excluded *)
-    split; [|intros; discriminate]. intros cnd code pre suf next c rho stk fuel Hif. discriminate Hif.
+  - (* IfExp: test in condition context, then one of the branches; JUMP_FORWARD over the else-branch *)
+    destruct IHt as [IHt _]. destruct IHa as [IHa _]. destruct IHb as [IHb _]. split; [|intros; discriminate].
+    intros cnd code pre suf next c rho stk fuel Hif Hcode Hfuel Hfw. set (p := pos_of (length pre)) in *.
+    cbn [wfe] in Hif. apply andb_true_iff in Hif. destruct Hif as [Hif Hwb]. apply andb_true_iff in Hif. destruct Hif as [Hwt Hwa].
+    cbn [comp] in Hcode. cbn [eval].
+    set (pa := p + elen true t) in *. set (pb := pa + elen cnd a + 1) in *. set (pe := pb + elen cnd b) in *.
+    assert (Hlen : elen cnd (IfExp t a b) = elen true t + elen cnd a + 1 + elen cnd b) by reflexivity.
+    assert (Hpe : p + elen cnd (IfExp t a b) = pe) by (rewrite Hlen; unfold pe, pb, pa; lia).
+    (* the test *)
+    assert (Ht := IHt true code pre (comp cnd a pa next c ++ [IFwd pe] ++ comp cnd b pb next c ++ suf) (TAt pb) false rho stk fuel Hwt
+                      ltac:(rewrite Hcode, <- !app_assoc; reflexivity) Hfuel ltac:(intros t0 Ht0; injection Ht0 as <-; unfold pb, pa; lia)).
+    cbn beta iota in Ht. unfold post_cond in Ht. fold p pa in Ht.
+    (* code re-associated for the two branches *)
+    assert (Hca : code = (pre ++ comp true t p (TAt pb) false) ++ comp cnd a pa next c ++ ([IFwd pe] ++ comp cnd b pb next c ++ suf))
+      by (rewrite Hcode, <- !app_assoc; reflexivity).
+    assert (Hpa : pos_of (length (pre ++ comp true t p (TAt pb) false)) = pa) by (rewrite pos_of_app, length_comp; reflexivity).
+    assert (Hcb : code = (pre ++ comp true t p (TAt pb) false ++ comp cnd a pa next c ++ [IFwd pe]) ++ comp cnd b pb next c ++ suf)
+      by (rewrite Hcode, <- !app_assoc; reflexivity).
+    assert (Hpb : pos_of (length (pre ++ comp true t p (TAt pb) false ++ comp cnd a pa next c ++ [IFwd pe])) = pb).
+    { rewrite pos_of_app, !app_length, !length_comp. cbn [length]. unfold pb, pa. lia. }
+    assert (Hcj : code = (pre ++ comp true t p (TAt pb) false ++ comp cnd a pa next c) ++ [IFwd pe] ++ (comp cnd b pb next c ++ suf))
+      by (rewrite Hcode, <- !app_assoc; reflexivity).
+    assert (Hpj : pos_of (length (pre ++ comp true t p (TAt pb) false ++ comp cnd a pa next c)) = pa + elen cnd a).
+    { rewrite pos_of_app, !app_length, !length_comp. unfold pa. lia. }
+    assert (Hatj : instr_at code (pa + elen cnd a) (IFwd pe)).
+    { rewrite Hcj at 1. rewrite <- Hpj. rewrite <- (Nat.add_0_r (pos_of _)). apply instr_at_mid. reflexivity. }
+    destruct (truthy (eval rho t)) eqn:Ett; cbn [Bool.eqb] in Ht.
+    + (* test true: branch a, then jump over b *)
+      destruct Ht as [f1 Hs1].
+      assert (Hf1 : length code + 3 <= f1 + pos_of (length (pre ++ comp true t p (TAt pb) false))) by (rewrite Hpa; destruct Hs1 as [H _]; exact H).
+      remember (pre ++ comp true t p (TAt pb) false) as prea eqn:Eprea.
+      rewrite <- Hpa in Hca.
+      assert (Ha := IHa cnd code _ _ next c rho stk f1 Hwa Hca Hf1).
+      rewrite Hpa in Ha.
+      assert (Hfwa : forall t0, next = TAt t0 -> pa + elen cnd a <= t0).
+      { intros t0 Ht0. apply Hfw in Ht0. rewrite Hlen in Ht0. unfold pa. lia. }
+      specialize (Ha Hfwa).
+      assert (Hskip : forall f2 stk2, length code + 3 <= f2 + (pa + elen cnd a) ->
+                exists f3, steps code rho (f2, pa + elen cnd a, stk2) (f3, pe, stk2)).
+      { intros f2 stk2 Hf2. destruct (fuel_pos _ _ _ _ Hatj Hf2) as [f3 ->]. exists f3. split.
+        - unfold pe, pb. lia.
+        - rewrite (exec_unfold f3 rho code _ stk2 _ Hatj). reflexivity. }
+      destruct cnd.
+      * eapply post_cond_pre; [exact Hs1|]. unfold post_cond in *. rewrite Hpe.
+        destruct (Bool.eqb (truthy (eval rho a)) c); [exact Ha|].
+        destruct Ha as [f2 Hs2]. destruct (Hskip f2 stk ltac:(destruct Hs2 as [H _]; exact H)) as [f3 Hs3].
+        exists f3. eapply steps_trans; eassumption.
+      * unfold post_val in *. rewrite Hpe. destruct Ha as [f2 Hs2].
+        destruct (Hskip f2 (eval rho a :: stk) ltac:(destruct Hs2 as [H _]; exact H)) as [f3 Hs3].
+        exists f3. eapply steps_trans; [exact Hs1|]. eapply steps_trans; eassumption.
+    + (* test false: branch b *)
+      destruct Ht as [f1 Hs1].
+      assert (Hf1 : length code + 3 <= f1 + pos_of (length (pre ++ comp true t p (TAt pb) false ++ comp cnd a pa next c ++ [IFwd pe])))
+        by (rewrite Hpb; destruct Hs1 as [H _]; exact H).
+      remember (pre ++ comp true t p (TAt pb) false ++ comp cnd a pa next c ++ [IFwd pe]) as preb eqn:Epreb.
+      rewrite <- Hpb in Hcb.
+      assert (Hb := IHb cnd code _ _ next c rho stk f1 Hwb Hcb Hf1).
+      rewrite Hpb in Hb.
+      assert (Hfwb : forall t0, next = TAt t0 -> pb + elen cnd b <= t0).
+      { intros t0 Ht0. apply Hfw in Ht0. rewrite Hlen in Ht0. unfold pb, pa. lia. }
+      specialize (Hb Hfwb). fold pe in Hb.
+      destruct cnd.
+      * eapply post_cond_pre; [exact Hs1|]. rewrite Hpe. exact Hb.
+      * unfold post_val in *. rewrite Hpe. destruct Hb as [f2 Hs2]. exists f2. eapply steps_trans; eassumption.
   - (* Cmp *)
     destruct IHa as [IHa _]. destruct IHb as [IHb _]. split; [|intros; discriminate].
     intros cnd code pre suf next c rho stk fuel Hif Hcode Hfuel Hfw. set (p := pos_of (length pre)) in *.
-    cbn [simple] in Hif. apply andb_true_iff in Hif. destruct Hif as [Hsa Hsb].
+    cbn [wfe] in Hif. apply andb_true_iff in Hif. destruct Hif as [Hsa Hsb].
     cbn [comp] in Hcode. rewrite <- !app_assoc in Hcode.
     (* a, then b, then COMPARE_OP *)
     destruct (use_val a code pre _ next c rho stk fuel IHa Hsa Hcode Hfuel) as [f1 Hs1]. fold p in Hs1.
@@ -576,7 +638,7 @@ Proof.
   - (* IsNone *)
     destruct IH as [IHe _]. split; [|intros neg0 e2 Heq; injection Heq as _ <-; exact IHe].
     intros cnd code pre suf next c rho stk fuel Hif Hcode Hfuel Hfw. set (p := pos_of (length pre)) in *.
-    cbn [simple] in Hif. cbn [comp] in Hcode. destruct cnd; cbn [elen eval].
+    cbn [wfe] in Hif. cbn [comp] in Hcode. destruct cnd; cbn [elen eval].
     + (* POP_JUMP_IF_(NOT_)NONE *)
       rewrite <- app_assoc in Hcode.
       destruct (use_val e code pre _ next c rho stk fuel IHe Hif Hcode Hfuel) as [f1 Hs1]. fold p in Hs1.
@@ -594,6 +656,31 @@ Proof.
     + rewrite <- app_assoc in Hcode. replace (p + (elen false e + 1)) with (p + S (elen false e)) by lia.
       unfold post_val. apply (val_then_op e (IIs neg) code pre suf next c rho stk fuel _ IHe Hif Hcode Hfuel).
       intros f0 pc Hat. rewrite (exec_unfold _ rho code pc _ _ Hat). reflexivity.
+Qed.
+
+(* ------------------------------------------------------------------ expressions without conditional expressions *)
+Lemma simple_go : forall m,
+  (fix go (l : list bexp) : bool := match l with [] => true | x :: r => simple x && go r end) m = forallb simple m.
+Proof. induction m as [|x r IH]; [reflexivity|]. cbn [forallb]. rewrite <- IH. reflexivity. Qed.
+Lemma simple_And : forall l, simple (And l) = true -> l <> [] /\ forallb simple l = true.
+Proof. intros [|x r] H; [discriminate H|]. split; [discriminate|]. rewrite <- simple_go. exact H. Qed.
+Lemma simple_Or : forall l, simple (Or l) = true -> l <> [] /\ forallb simple l = true.
+Proof. intros [|x r] H; [discriminate H|]. split; [discriminate|]. rewrite <- simple_go. exact H. Qed.
+
+Lemma wfe_And_intro : forall l, l <> [] -> forallb wfe l = true -> wfe (And l) = true.
+Proof. intros [|x r] Hne H; [congruence|]. cbn [wfe]. rewrite wfe_go. exact H. Qed.
+Lemma wfe_Or_intro : forall l, l <> [] -> forallb wfe l = true -> wfe (Or l) = true.
+Proof. intros [|x r] Hne H; [congruence|]. cbn [wfe]. rewrite wfe_go. exact H. Qed.
+
+Lemma simple_wfe : forall e, simple e = true -> wfe e = true.
+Proof.
+  induction e as [n|v|e IH|l IH|l IH|t a b IHt IHa IHb|ne a b IHa IHb|neg e IH] using bexp_ind2; intro H; try reflexivity; try (apply IH; exact H).
+  - apply simple_And in H. destruct H as [Hne Hall]. apply wfe_And_intro; [exact Hne|].
+    apply forallb_forall. intros x Hx. rewrite Forall_forall in IH. apply IH; [exact Hx|]. rewrite forallb_forall in Hall. apply Hall. exact Hx.
+  - apply simple_Or in H. destruct H as [Hne Hall]. apply wfe_Or_intro; [exact Hne|].
+    apply forallb_forall. intros x Hx. rewrite Forall_forall in IH. apply IH; [exact Hx|]. rewrite forallb_forall in Hall. apply Hall. exact Hx.
+  - discriminate H.
+  - cbn [simple wfe] in *. apply andb_true_iff in H. destruct H as [H1 H2]. rewrite IHa, IHb by assumption. reflexivity.
 Qed.
 
 (* ------------------------------------------------------------------ no JUMP_FORWARD without conditional expressions *)
@@ -660,7 +747,7 @@ Qed.
 
 (* a condition at the head of `seg ++ suf`, preceded by pre *)
 Lemma cond_code_sound : forall e rho pre suf fuel,
-  simple e = true -> sound_at e ->
+  wfe e = true -> sound_at e ->
   let code := pre ++ comp true e (pos_of (length pre)) TTop false ++ suf in
   length code + 3 <= fuel + pos_of (length pre) ->
   (forall f, length code + 3 <= f + (pos_of (length pre) + elen true e) -> exec f rho code (pos_of (length pre) + elen true e) [] = OYield None) ->
@@ -673,7 +760,7 @@ Proof.
 Qed.
 
 Lemma val_code_sound : forall e rho pre suf fuel,
-  simple e = true -> sound_at e ->
+  wfe e = true -> sound_at e ->
   let code := pre ++ comp false e (pos_of (length pre)) TTop false ++ suf in
   length code + 3 <= fuel + pos_of (length pre) ->
   (forall f, length code + 3 <= f + (pos_of (length pre) + elen false e) ->
@@ -685,12 +772,24 @@ Proof.
   rewrite E. apply Hrest. exact Hf.
 Qed.
 
-Theorem compile_sound_simple : forall ps e rho, simple e = true -> run_code rho (compile ps e) = meaning ps rho e.
+Definition raw (ps : position) (e : bexp) : list instr :=
+  match ps with
+  | PFilter => comp true e (pos_of 0) TTop false ++ [ILoadElt; IYield]
+  | PFilter2 => comp true e (pos_of 0) TTop false ++ [IPushComp; ILoadElt; IYield]
+  | PFilter3 => IPushComp :: comp true e (pos_of 1) TTop false ++ [ILoadElt; IYield]
+  | PElt => comp false e (pos_of 0) TTop false ++ [IYield]
+  | PLambda => comp false e (pos_of 0) TTop false ++ [IReturn]
+  end.
+
+Lemma compile_raw : forall ps e, compile ps e = thread (raw ps e).
+Proof. intros [] e; reflexivity. Qed.
+
+(* the stream before jump threading *)
+Lemma raw_sound : forall ps e rho, wfe e = true -> exec (S (length (raw ps e))) rho (raw ps e) 2 [] = meaning ps rho e.
 Proof.
-  intros ps e rho Hs. destruct (sound_all e) as [He _]. unfold run_code.
-  destruct ps; unfold compile, meaning.
+  intros ps e rho Hw. destruct (sound_all e) as [He _].
+  destruct ps; unfold raw, meaning.
   - (* filter *)
-    rewrite thread_no_fwd by (apply no_fwd_app; [apply no_fwd_comp; assumption | nofwd_list TTop]).
     change (comp true e (pos_of 0) TTop false ++ [ILoadElt; IYield]) with ([] ++ comp true e (pos_of (length (@nil instr))) TTop false ++ [ILoadElt; IYield]).
     change 2 with (pos_of (length (@nil instr))) at 1.
     apply cond_code_sound; [assumption | assumption | cbn [length app]; unfold pos_of; lia |].
@@ -698,7 +797,6 @@ Proof.
     rewrite <- (Nat.add_0_r (_ + length _)) in *. apply exec_load_elt; [|assumption].
     apply instr_at_after. reflexivity.
   - (* filter of the first of two loops *)
-    rewrite thread_no_fwd by (apply no_fwd_app; [apply no_fwd_comp; assumption | nofwd_list TTop]).
     change (comp true e (pos_of 0) TTop false ++ [IPushComp; ILoadElt; IYield]) with ([] ++ comp true e (pos_of (length (@nil instr))) TTop false ++ [IPushComp; ILoadElt; IYield]).
     change 2 with (pos_of (length (@nil instr))) at 1.
     apply cond_code_sound; [assumption | assumption | cbn [length app]; unfold pos_of; lia |].
@@ -711,7 +809,6 @@ Proof.
     destruct (exec_push_comp code rho f q [] Hat0 Hf) as [f0 [-> E]]. rewrite E.
     replace (S q) with (q + 1) by lia. apply exec_load_elt; [assumption | lia].
   - (* filter of the second loop *)
-    rewrite thread_no_fwd by (intros t [H|H]; [discriminate H|]; revert t H; apply no_fwd_app; [apply no_fwd_comp; assumption | nofwd_list TTop]).
     set (code := IPushComp :: comp true e (pos_of 1) TTop false ++ [ILoadElt; IYield]).
     assert (Hat0 : instr_at code 2 IPushComp) by (split; [lia | reflexivity]).
     destruct (exec_push_comp code rho (S (length code)) 2 [] Hat0 ltac:(lia)) as [f0 [Hf0 E]]. rewrite E.
@@ -723,7 +820,6 @@ Proof.
     rewrite <- (Nat.add_0_r (_ + length _)) in *. apply exec_load_elt; [|assumption].
     apply instr_at_after. reflexivity.
   - (* element *)
-    rewrite thread_no_fwd by (apply no_fwd_app; [apply no_fwd_comp; assumption | nofwd_list TTop]).
     change (comp false e (pos_of 0) TTop false ++ [IYield]) with ([] ++ comp false e (pos_of (length (@nil instr))) TTop false ++ [IYield]).
     change 2 with (pos_of (length (@nil instr))) at 1.
     apply val_code_sound; [assumption | assumption | cbn [length app]; unfold pos_of; lia |].
@@ -731,7 +827,6 @@ Proof.
     rewrite <- (Nat.add_0_r (_ + length _)) in *. apply exec_yield; [|assumption].
     apply instr_at_after. reflexivity.
   - (* lambda body *)
-    rewrite thread_no_fwd by (apply no_fwd_app; [apply no_fwd_comp; assumption | nofwd_list TTop]).
     change (comp false e (pos_of 0) TTop false ++ [IReturn]) with ([] ++ comp false e (pos_of (length (@nil instr))) TTop false ++ [IReturn]).
     change 2 with (pos_of (length (@nil instr))) at 1.
     apply val_code_sound; [assumption | assumption | cbn [length app]; unfold pos_of; lia |].
@@ -739,3 +834,124 @@ Proof.
     rewrite <- (Nat.add_0_r (_ + length _)) in *. apply exec_return; [|assumption].
     apply instr_at_after. reflexivity.
 Qed.
+
+(* ------------------------------------------------------------------ jump threading preserves the meaning of a stream *)
+Section Thread.
+  Variable rho : env.
+
+  (* exec with the recursive call abstracted *)
+  Definition ebody (code : list instr) (k : nat -> list val -> outcome) (pc : nat) (stk : list val) : outcome :=
+    match nth_error code (pc - 2) with
+    | None => OStuck
+    | Some ins =>
+        if Nat.ltb pc 2 then OStuck else
+        let nxt := S pc in
+        match ins, stk with
+        | ILoad n, _ => k nxt (rho n :: stk)
+        | IConst v, _ => k nxt (v :: stk)
+        | INot, x :: r => k nxt (of_bool (negb (truthy x)) :: r)
+        | ICmp ne, b :: a :: r => k nxt (of_bool (xorb ne (val_eqb a b)) :: r)
+        | IIs neg, x :: r => k nxt (of_bool (xorb neg (val_eqb x VNone)) :: r)
+        | ICopy, x :: r => k nxt (x :: x :: r)
+        | IPopTop, _ :: r => k nxt r
+        | IJump c t, x :: r => if Bool.eqb (truthy x) c then k t r else k nxt r
+        | IJumpNone c t, x :: r => if Bool.eqb (val_eqb x VNone) c then k t r else k nxt r
+        | IBack c, x :: r => if Bool.eqb (truthy x) c then OSkip else k nxt r
+        | IBackNone c, x :: r => if Bool.eqb (val_eqb x VNone) c then OSkip else k nxt r
+        | IFwd t, _ => k t stk
+        | IPushComp, _ => k nxt stk
+        | ILoadElt, _ => OYield None
+        | IYield, x :: _ => OYield (Some x)
+        | IReturn, x :: _ => OYield (Some x)
+        | _, _ => OStuck
+        end
+    end.
+
+  Lemma exec_S : forall code f pc stk, exec (S f) rho code pc stk = ebody code (exec f rho code) pc stk.
+  Proof. reflexivity. Qed.
+
+  Lemma ebody_ext : forall code (k1 k2 : nat -> list val -> outcome) pc stk,
+    (forall pc' stk', k1 pc' stk' <> OStuck -> k2 pc' stk' = k1 pc' stk') ->
+    ebody code k1 pc stk <> OStuck -> ebody code k2 pc stk = ebody code k1 pc stk.
+  Proof.
+    intros code k1 k2 pc stk Hk H. unfold ebody in *.
+    destruct (nth_error code (pc - 2)) as [ins|]; [|reflexivity].
+    destruct (Nat.ltb pc 2); [reflexivity|].
+    destruct ins; destruct stk as [|x [|y r]]; try reflexivity; try (apply Hk; exact H);
+      try (destruct (Bool.eqb _ _); try reflexivity; apply Hk; exact H).
+  Qed.
+
+  Lemma exec_mono1 : forall code f pc stk, exec f rho code pc stk <> OStuck -> exec (S f) rho code pc stk = exec f rho code pc stk.
+  Proof.
+    intros code. induction f as [|f IH]; intros pc stk H; [exfalso; apply H; reflexivity|].
+    rewrite (exec_S code (S f)), (exec_S code f) in *. apply ebody_ext; [|exact H].
+    intros pc' stk' H'. apply IH. exact H'.
+  Qed.
+
+  Lemma exec_mono : forall code f' f pc stk, f' <= f -> exec f' rho code pc stk <> OStuck -> exec f rho code pc stk = exec f' rho code pc stk.
+  Proof.
+    intros code f' f pc stk Hle H. induction Hle as [|f Hle IH]; [reflexivity|].
+    rewrite exec_mono1; [exact IH | rewrite IH; exact H].
+  Qed.
+
+  (* jumping to the end of a chain of JUMP_FORWARDs instead of its start changes nothing *)
+  Lemma ft_chain : forall code n t f stk, exec f rho code t stk <> OStuck ->
+    exists f', f' <= f /\ exec f rho code t stk = exec f' rho code (final_target n code t) stk.
+  Proof.
+    intros code. induction n as [|n IH]; intros t f stk H; [exists f; split; [lia|reflexivity]|].
+    cbn [final_target]. destruct (nth_error code (t - 2)) as [ins|] eqn:En; [|exists f; split; [lia|reflexivity]].
+    destruct ins; try (exists f; split; [lia|reflexivity]).
+    destruct (Nat.leb 2 t) eqn:Et; [|exists f; split; [lia|reflexivity]].
+    destruct f as [|f0]; [exfalso; apply H; reflexivity|].
+    assert (Hstep : exec (S f0) rho code t stk = exec f0 rho code t0 stk).
+    { rewrite exec_S. unfold ebody. rewrite En. apply Nat.leb_le in Et.
+      replace (t <? 2) with false by (symmetry; apply Nat.ltb_ge; exact Et). reflexivity. }
+    rewrite Hstep in *. destruct (IH t0 f0 stk H) as [f' [Hle E]]. exists f'. split; [lia|exact E].
+  Qed.
+
+  Lemma nth_thread : forall code i,
+    nth_error (thread code) i =
+    match nth_error code i with
+    | Some ins => Some (match target_of ins with Some t => retarget ins (final_target (length code) code t) | None => ins end)
+    | None => None
+    end.
+  Proof. intros code i. unfold thread. rewrite nth_error_map. destruct (nth_error code i); reflexivity. Qed.
+
+  Theorem exec_thread : forall code f pc stk,
+    exec f rho code pc stk <> OStuck -> exec f rho (thread code) pc stk = exec f rho code pc stk.
+  Proof.
+    intros code f. induction f as [f IHf] using lt_wf_ind. intros pc stk H.
+    destruct f as [|f0]; [reflexivity|].
+    rewrite (exec_S (thread code)), (exec_S code) in *. unfold ebody in *. rewrite nth_thread.
+    destruct (nth_error code (pc - 2)) as [ins|]; [|reflexivity].
+    destruct (Nat.ltb pc 2); [reflexivity|].
+    assert (Hsame : forall pc' stk', exec f0 rho code pc' stk' <> OStuck -> exec f0 rho (thread code) pc' stk' = exec f0 rho code pc' stk')
+      by (intros; apply IHf; [lia|assumption]).
+    assert (Hjump : forall t stk', exec f0 rho code t stk' <> OStuck ->
+              exec f0 rho (thread code) (final_target (length code) code t) stk' = exec f0 rho code t stk').
+    { intros t stk' Hn. destruct (ft_chain code (length code) t f0 stk' Hn) as [f' [Hle E]].
+      rewrite E. assert (Hn' : exec f' rho code (final_target (length code) code t) stk' <> OStuck) by (rewrite <- E; exact Hn).
+      assert (Ht : exec f' rho (thread code) (final_target (length code) code t) stk' = exec f' rho code (final_target (length code) code t) stk').
+      { apply IHf; [lia | exact Hn']. }
+      rewrite <- Ht. apply exec_mono; [exact Hle | rewrite Ht; exact Hn']. }
+    destruct ins; cbn [target_of retarget]; destruct stk as [|x [|y r]]; try reflexivity; try (apply Hsame; exact H); try (apply Hjump; exact H);
+      try (destruct (Bool.eqb _ _); try reflexivity; first [apply Hsame; exact H | apply Hjump; exact H]).
+  Qed.
+End Thread.
+
+(* ------------------------------------------------------------------ the theorem with conditional expressions *)
+Lemma meaning_not_stuck : forall ps rho e, meaning ps rho e <> OStuck.
+Proof. intros [] rho e; unfold meaning; try destruct (truthy (eval rho e)); discriminate. Qed.
+
+Lemma length_thread : forall code, length (thread code) = length code.
+Proof. intro code. unfold thread. apply map_length. Qed.
+
+Theorem compile_sound_full : forall ps e rho, wfe e = true -> run_code rho (compile ps e) = meaning ps rho e.
+Proof.
+  intros ps e rho Hw. unfold run_code. rewrite compile_raw, length_thread.
+  rewrite exec_thread; [apply raw_sound; exact Hw|].
+  rewrite raw_sound by exact Hw. apply meaning_not_stuck.
+Qed.
+
+Theorem compile_sound_simple : forall ps e rho, simple e = true -> run_code rho (compile ps e) = meaning ps rho e.
+Proof. intros ps e rho Hs. apply compile_sound_full. apply simple_wfe. exact Hs. Qed.
